@@ -173,14 +173,14 @@ type c36Fail struct {
 }
 
 type c36VecResult struct {
-	fails        []c36Fail
-	schedType    string
-	counts       [][]int64 // per start
-	wrapMax      int
-	wrapOverN    int
-	engineErr    string
-	seqNumbers   int64
-	picks        int64
+	fails      []c36Fail
+	schedType  string
+	counts     [][]int64 // per start
+	wrapMax    int
+	wrapOverN  int
+	engineErr  string
+	seqNumbers int64
+	picks      int64
 }
 
 const c36Extra = 4096 // sliding extension: every window start in [start, start+4096] is checked
